@@ -322,8 +322,11 @@ def execute(plan, scratch):
                 res = "exception" if exc is not None else ("hit" if hit else "ignored")
                 stats["payload:" + res] += 1
                 if net is not None and ref["net"] is not None:
-                    stats["payload:" + res + ("-equivalent" if roadnet.digest(roadnet.dump(net)) == ref["dig"]
-                                              else "-NOT-equivalent")] += 1
+                    try:  # a corrupted pickle may even unpickle to something that is not a Network
+                        same = roadnet.digest(roadnet.dump(net)) == ref["dig"]
+                    except Exception:  # noqa: BLE001
+                        same = None
+                    stats["payload:" + res + {True: "-equivalent", False: "-NOT-equivalent", None: "-garbage-object"}[same]] += 1
                 ent["outcome"] = "any-accepted"
             elif exc is not None:
                 ent["outcome"] = "exc:" + type(exc).__name__
